@@ -729,6 +729,18 @@ def _canonical_statements(tree: ast.AST):
                                     out.append(ast.copy_location(ast.Assign(targets=[t], value=v), st))
                                 i += 1
                                 continue
+                        # a, b = E1, E2   ->  a = E1 ; b = E2    (plain local targets; no later value reads an earlier target: the values are
+                        # still evaluated in the same order, and binding a local between two evaluations is not observable)
+                        if isinstance(st, ast.Assign) and len(st.targets) == 1 and isinstance(st.targets[0], ast.Tuple) and \
+                                isinstance(st.value, ast.Tuple) and len(st.targets[0].elts) == len(st.value.elts) and \
+                                all(isinstance(t, ast.Name) for t in st.targets[0].elts) and \
+                                len({t.id for t in st.targets[0].elts}) == len(st.targets[0].elts) and \
+                                not any(isinstance(x, (ast.Lambda, ast.NamedExpr, ast.Starred)) for v in st.value.elts for x in ast.walk(v)) and \
+                                all(not ({t.id for t in st.targets[0].elts[:j]} & _names_in(v)) for j, v in enumerate(st.value.elts)):
+                            for t, v in zip(st.targets[0].elts, st.value.elts):
+                                out.append(ast.copy_location(ast.Assign(targets=[t], value=v), st))
+                            i += 1
+                            continue
                         # x = x  (left behind by inlining)
                         if isinstance(st, ast.Assign) and len(st.targets) == 1 and isinstance(st.targets[0], ast.Name) and \
                                 isinstance(st.value, ast.Name) and st.value.id == st.targets[0].id:
@@ -871,6 +883,62 @@ def _eliminate_aliases(tree: ast.AST):
             for n in ast.walk(fn):
                 if isinstance(n, ast.Name) and n.id == a:
                     n.id = b
+
+
+def _coalesce_forwarded_temporaries(tree: ast.AST):
+    """`t = E` immediately followed by `b = t`, with t a plain local bound only there and read only in later statements of the same block,
+    during which b is not bound again: t and b hold the same value wherever t is read, so E is bound to b directly and t disappears
+    (what is left when a helper that computes a value, uses it and returns it has been inlined into `b = helper(...)`)."""
+    for fn in [n for n in ast.walk(tree) if isinstance(n, (ast.FunctionDef, ast.AsyncFunctionDef))]:
+        a_ = fn.args
+        params = {x.arg for x in a_.args + a_.kwonlyargs + a_.posonlyargs} | ({a_.vararg.arg} if a_.vararg else set()) | ({a_.kwarg.arg} if a_.kwarg else set())
+        for _round in range(6):
+            stores: Dict[str, int] = {}
+            nested_names = set()
+            declared = set()
+            for n in ast.walk(fn):
+                if n is not fn and isinstance(n, (ast.FunctionDef, ast.AsyncFunctionDef, ast.Lambda, ast.ClassDef)):
+                    nested_names |= _names_in(n)
+                if isinstance(n, ast.Name) and isinstance(n.ctx, (ast.Store, ast.Del)):
+                    stores[n.id] = stores.get(n.id, 0) + 1
+                elif isinstance(n, (ast.Global, ast.Nonlocal)):
+                    declared |= set(n.names)
+            done = False
+            for node in ast.walk(fn):
+                for fld in ("body", "orelse", "finalbody"):
+                    blk = getattr(node, fld, None)
+                    if not isinstance(blk, list) or len(blk) < 2 or not isinstance(blk[0], ast.stmt):
+                        continue
+                    for k in range(len(blk) - 1):
+                        s1, s2 = blk[k], blk[k + 1]
+                        if not (isinstance(s1, ast.Assign) and len(s1.targets) == 1 and isinstance(s1.targets[0], ast.Name) and getattr(s1, "ann", None) is None and
+                                isinstance(s2, ast.Assign) and len(s2.targets) == 1 and isinstance(s2.targets[0], ast.Name) and isinstance(s2.value, ast.Name) and
+                                getattr(s2, "ann", None) is None):
+                            continue
+                        t, b = s1.targets[0].id, s2.targets[0].id
+                        if s2.value.id != t or t == b or stores.get(t) != 1 or t in params or t in nested_names or b in nested_names or t in declared or b in declared:
+                            continue
+                        rest = blk[k + 2:]
+                        rest_ids = {id(x) for st in rest for x in ast.walk(st)}
+                        loads = [x for x in ast.walk(fn) if isinstance(x, ast.Name) and x.id == t and isinstance(x.ctx, ast.Load) and x is not s2.value]
+                        if any(id(x) not in rest_ids for x in loads):
+                            continue
+                        # b must not be bound again before the last statement of the block that reads t
+                        last = max((j for j, st in enumerate(rest) if any(isinstance(x, ast.Name) and x.id == t for x in ast.walk(st))), default=-1)
+                        if any(isinstance(x, ast.Name) and x.id == b and isinstance(x.ctx, (ast.Store, ast.Del)) for st in rest[:last + 1] for x in ast.walk(st)):
+                            continue
+                        s1.targets[0].id = b
+                        for x in loads:
+                            x.id = b
+                        del blk[k + 1]
+                        done = True
+                        break
+                    if done:
+                        break
+                if done:
+                    break
+            if not done:
+                break
 
 
 _PURE_VALUE_CALLS = {"Segment", "Unit", "len", "sum", "min", "max", "abs", "float", "int", "bool", "sorted", "list", "tuple", "enumerate", "zip", "range", "reversed",
@@ -1638,6 +1706,7 @@ def normalise_tree(tree: ast.AST, computed: Set[str] = frozenset(), records: Opt
             _inline_adjacent_temporaries(tree)
             _canonical_statements(tree)
             _eliminate_aliases(tree)
+            _coalesce_forwarded_temporaries(tree)
     for fn in [n for n in ast.walk(tree) if isinstance(n, (ast.FunctionDef, ast.AsyncFunctionDef))]:
         for node in ast.walk(fn):
             for fld in ("body", "orelse", "finalbody"):
